@@ -33,6 +33,9 @@ texts are `,`-joined (`_` = empty list), positions are byte offsets.
         `r#"…"#`, `h` character literal `'…'`.  `bad`: a text does not have the shape of its kind;
         `quirk`: the token list is not well-formed (`LexSpec.WF`), i.e. one of the shapes excluded
         from the agreement theorem; otherwise one `0|1` per character: `commentFlags`.
+  cm.mustchange <comment> <changed:0|1> -> ok | payload-ignores-comment:<comment>
+        oracle `dropIsNoticed` on the real `changed_comment_content(comment, "")`: a comment with text
+        (a character that is neither white space nor `/ * !`) must make a difference when it is dropped
   cm.payloads <ins> <outs>       -> ok | diff | panic   equal `CommentReducer` payload, concatenated
 -/
 namespace RF.Driver.Comment
@@ -246,6 +249,10 @@ def handle (op : String) (args : List String) : Option String :=
         if LexSpec.render toks != source then pure "bad"
         else if !LexSpec.WF toks then pure "quirk"
         else pure (String.ofList ((LexSpec.commentFlags toks).map fun b => if b then '1' else '0'))
+  | "cm.mustchange", [c, ch] => do
+    let c ← decChars c
+    let ch ← decBit ch
+    if dropIsNoticed c ch then pure "ok" else pure s!"payload-ignores-comment:{encChars c}"
   | "cm.payloads", [a, b] => do
     let a ← decTexts a
     let b ← decTexts b
